@@ -197,3 +197,49 @@ fn c19_location_in_bounds() {
     assert!(q.column() <= line_len(&buf, n, q.line()) + 1);
     kani::cover!(peek && k < n && lines == 3);
 }
+
+/// Position queries are pure: asked in any order and any number of times they give the same answers and never panic - a
+/// parser that reported an error about the peeked byte (peek_position) is asked for the current position (position) by the
+/// next call, i.e. for a SMALLER index than before.
+/// @bound every buffer of 0..=5 bytes, every consumed count, optional peek; queries in both orders, repeated; slice and stream readers
+/// @encodes SliceRead::position, SliceRead::peek_position, SliceRead::position_of_index, IoRead::position, IoRead::peek_position
+/// @prop C11
+/// @also C03 C19
+#[kani::proof]
+#[kani::unwind(8)]
+fn c11_position_query_order() {
+    let buf: [u8; N] = kani::any();
+    let n: usize = kani::any();
+    kani::assume(n <= N);
+    let k: usize = kani::any();
+    kani::assume(k <= n);
+    let peek: bool = kani::any();
+    let mut s = SliceRead::new(&buf[..n]);
+    advance(&mut s, k);
+    if peek {
+        let x = s.peek();
+        core::mem::forget(x);
+    }
+    let a1 = s.peek_position();
+    let b1 = s.position();
+    let a2 = s.peek_position();
+    let b2 = s.position();
+    assert!(a1.line() == a2.line() && a1.column() == a2.column());
+    assert!(b1.line() == b2.line() && b1.column() == b2.column());
+    let (l, c) = spec_pos(&buf, k);
+    assert!(b1.line() == l && b1.column() == c);
+    let mut io = IoRead::new(&buf[..n]);
+    advance(&mut io, k);
+    if peek {
+        let x = io.peek();
+        core::mem::forget(x);
+    }
+    let p1 = io.peek_position();
+    let q1 = io.position();
+    let p2 = io.peek_position();
+    let q2 = io.position();
+    assert!(p1.line() == p2.line() && p1.column() == p2.column());
+    assert!(q1.line() == q2.line() && q1.column() == q2.column());
+    assert!(q1.line() == l && q1.column() == c);
+    kani::cover!(peek && k > 0 && k < n);
+}
